@@ -210,5 +210,22 @@ def run_shard(spec, ctx, acc):
         return
     known = set(ctx["known"])
     n = 300 if ctx["tier"] == "quick" else 6000
+    # rejected short RTCM3 frames whose CRC bytes contain a frame-start byte, each followed by
+    # frames of every protocol (enumerated: such frames are rare among random ones)
+    corp = streams.corpus()
+    tricky = streams.tricky_tiny_rtcm()
+    for j, f in enumerate(tricky):
+        if j % 16 != spec["part"]:
+            continue
+        tail = [streams.item("ubx", corp["ubx"][j % len(corp["ubx"])], "good"),
+                streams.item("nmea", corp["nmea"][j % len(corp["nmea"])], "good"),
+                streams.item("rtcm", corp["rtcm"][j % len(corp["rtcm"])], "good")]
+        for k_ in range(3):
+            case = {"kind": "clean", "items": [streams.item("rtcm", f, "tiny")] + tail[k_:] + tail[:k_],
+                    "opts": {"msgmode": 0, "validate": 1, "parsebitfield": 1, "quitonerror": j % 2, "labelmsm": 1,
+                             "source": "bytesio", "usage": "once"}}
+            o = core.checked(check, case)
+            o.classes = list(o.classes) + ["tiny-rtcm-with-start-byte-in-crc"]
+            core.handle(acc, o, case, known)
     core.hyp_search(acc, case_strategy(), check, seed=core.derive(ctx["seed"], PROP, spec["part"]),
                     max_examples=n, known=known, rounds=3)
